@@ -23,6 +23,14 @@ TIERS = {
                          run_timeout=300, determinism=128, shrink_budget=240,
                          shrink_timeout=900),
     },
+    'C09': {
+        'quick': dict(runs=1600, workers=16, batch_timeout=900,
+                      run_timeout=180, determinism=24, shrink_budget=90,
+                      shrink_timeout=400),
+        'thorough': dict(runs=30000, workers=16, batch_timeout=10800,
+                         run_timeout=300, determinism=128, shrink_budget=240,
+                         shrink_timeout=900),
+    },
 }
 
 COMMON_ASSUMPTIONS = [
@@ -135,6 +143,44 @@ META = {
             'likelihood tolerance 1e-10*|L|+1e-9; prior tolerance 1e-9',
             'invalid atmospheres reachable here: sum of mixing ratios > 1, toy '
             'limit, injected contribution faults',
+        ],
+    },
+    'C09': {
+        'rule': 'one run = one Optimizer.fit() end to end on R simulated ranks '
+                'with the sampler replaced by a peer that returns a generated '
+                'posterior (nestle Result object, MultiNest files, PolyChord '
+                'files; a share of runs use the real seeded nestle); the '
+                'solution dictionary is compared with references computed '
+                'from the sampler output as written; all runs are '
+                'non-trivial; distinct = distinct (sampler, number of modes, '
+                'mode sizes, weight families, R, fitted and derived names, '
+                'sigma_fraction)',
+        'probes': ['unequal_modes', 'multi_mode', 'tied_weights',
+                   'real_nestle_run'],
+        'real': ['Optimizer.fit / generate_solution / generate_profiles / '
+                 'compute_derived_trace', 'store_nestle_output, '
+                 'store_nest_solutions, store_polychord_solutions, '
+                 'get_poly_stats', 'quantile_corner', 'binner '
+                 'generate_spectrum_output, store_contributions',
+                 'real nestle library (share of runs, seeded np.random)',
+                 'TransmissionModel with Absorption/CIA/Rayleigh'],
+        'stub': ['nestle.sample double returning nestle.Result',
+                 'pymultinest double writing <base>.txt, post_separate.dat, '
+                 'stats.dat and serving Analyzer.get_stats',
+                 'pypolychord double writing 1-.txt, 1-.stats, clusters/ '
+                 '(.stats layout reconstructed from the wrapper: '
+                 'lowest-fidelity stub)', 'mpi4py -> SimWorld',
+                 'in-memory opacity tables'],
+        'assumptions': COMMON_ASSUMPTIONS + [
+            'MultiNest text layout: columns weight, -2logL, parameters; modes '
+            'in post_separate.dat separated by two blank lines; Analyzer '
+            'reports per-mode mean/sigma/maximum/MAP in multimodal runs and no '
+            'modes otherwise',
+            'MAP: nestle = a sample of greatest weight; MultiNest = the MAP the '
+            'sampler reported; PolyChord = only required to be a stored sample',
+            'sample values are distinct per parameter (ties in x make the '
+            'quantile rule order dependent); weights may tie freely',
+            'resume/crash of the external samplers is out of scope',
         ],
     },
 }
